@@ -467,7 +467,9 @@ def run_part(ctx, build):
         build.build_runtime()
     thorough = ctx.tier == "thorough"
     timeout = 300 if thorough else 100
-    budget_s = None if thorough else float(os.environ.get("VERIF_ROUTES_BUDGET", "230"))
+    # (the thorough tier's plan - every program at every level on three routes - takes several hours on 16 cores;
+    # it starts work for 45 minutes, pinned reproducers first, then level by level, and counts what it left out)
+    budget_s = float(os.environ.get("VERIF_ROUTES_BUDGET", "2700" if thorough else "230"))
     pinned = load_dir(os.path.join(VERIF, "corpus", "routes"))
     corpus = load_dir(os.path.join(VERIF, "corpus", "programs"))
     gen, gen_note = generated(ctx, 200 if thorough else 24)
